@@ -76,7 +76,14 @@ EXTRA_VALUES = {
     'cryptoparser.httpx.header:HttpHeaderFieldValueXXSSProtection': ('0', '1', '1; mode=block'),
     'cryptoparser.httpx.header:HttpHeaderFieldValueContentSecurityPolicy': (
         "default-src 'none'", "default-src 'self'; img-src *; script-src 'self' https://example.com", 'upgrade-insecure-requests',
-        "script-src 'self' 'unsafe-inline' https://a.example https://b.example data:; object-src 'none'"),
+        "script-src 'self' 'unsafe-inline' https://a.example https://b.example data:; object-src 'none'",
+        # one value per kind of directive the library knows (reporting, navigation, document and the remaining fetch ones)
+        "default-src 'self'; report-to csp-endpoint", 'report-to endpoint-1', "webrtc 'allow'", "webrtc 'block'",
+        'report-uri /csp https://example.com/r', 'sandbox', 'sandbox allow-forms allow-scripts', "frame-ancestors 'none'",
+        "frame-ancestors 'self' https://example.com", 'plugin-types application/pdf', "base-uri 'self'", "form-action 'self'",
+        'block-all-mixed-content', "require-trusted-types-for 'script'", 'worker-src blob:', "prefetch-src 'self'",
+        "manifest-src 'self'; child-src 'none'", "script-src-elem 'self'; script-src-attr 'none'; style-src-elem 'self'; style-src-attr 'none'",
+        "default-src 'self'; sandbox allow-forms; report-uri /r; report-to g; webrtc 'block'; upgrade-insecure-requests"),
     'cryptoparser.dnsrec.txt:DnsRecordTxtValueSpf': (
         'v=spf1 -all', 'v=spf1 x= -all', 'v=spf1 a mx ~all', 'v=spf1 +mx ?a ~include:x.example +ip4:192.0.2.1 -all', 'v=spf1 +all',
         'v=spf1 a/0 mx:example.com/24/0 a:x.example/0/128 mx/32 ip4:0.0.0.0/0 ip6:::/0 -all', 'v=spf1 a/0 -all', 'v=spf1 mx/0/0 ~all', 'v=spf1 mx', 'v=spf1 a', 'v=spf1 include:x a', 'v=spf1 -all x=1', 'v=spf1 a/24', 'v=spf1 ptr', 'v=spf1 ip4:192.0.2.0/24 ip6:2001:db8::/32 include:example.net ?all',
